@@ -98,6 +98,22 @@ def wider_more_lines_cheaper_break_kind(fail):
     return fail.get("kind") == "wider_more_lines" and fail.get("narrow_overflows") is False
 
 
+def overflow_by_closers_after_line_comment(fail):
+    """F30: a continuation line that follows a trailing `//` comment and holds an inline child line
+    (`(A, B);` of a variant-record arm, an anonymous routine ...) exceeds the limit only by its closing
+    punctuation: the search prunes the fitting alternative (child line broken) by best-penalty-per-token
+    before the closers are measured"""
+    if fail.get("kind") != "fits_not_monotone" or not fail.get("over_lines") or fail.get("over_count", 0) > len(fail["over_lines"]):
+        return False
+    w = fail.get("wide")
+    for prev, line in fail["over_lines"]:
+        b = line.encode("utf-8")
+        rest = b[w:].decode("utf-8", "replace")
+        if "//" not in prev or not re.fullmatch(r"[)\];,.]+", rest) or not re.search(r"[(\[]", line):
+            return False
+    return True
+
+
 def mlstring_width_dependence(fail):
     """F25: a multi-line string inside a wrapped line: the wrapper measures the literal's last line
     around its re-indentation, so the chosen wrapping of what follows the literal depends on the limit
@@ -125,7 +141,7 @@ def witness_inputs(prop):
     return out
 
 
-DETECTORS = {f.__name__: f for f in [lone_cr_after_line_comment, wider_more_lines_in_overflow_regime, wider_more_lines_cheaper_break_kind, mlstring_width_dependence,
+DETECTORS = {f.__name__: f for f in [lone_cr_after_line_comment, overflow_by_closers_after_line_comment, wider_more_lines_in_overflow_regime, wider_more_lines_cheaper_break_kind, mlstring_width_dependence,
     cr_after_line_comment_in_region, literal_then_gap, mlstring_in_child_line_reflow,
     trailing_exotic_blank_in_line_comment, unterminated_literal_trailing_blank, continuation_saturates,
     nesting_depth, cursor_mid_char_changed_token, cursor_u16_truncation, mlstring_last_terminator_lone_cr,
